@@ -40,6 +40,9 @@ checks = {
  "C19": dict(design="4/C19", engine="tlc-audit", technique="TLC enumeration of the Audit.tla decision table (record yes/no, listed rules, callback counts as TLA+ functions) replayed on the real library with a capturing audit writer and error callback + concurrent stress of the serial writer (JSON and native) with record-integrity parsing",
    text="The audit policy is a decision table over (audit engine after ctl, relevant-status pattern, status source, rule engine mode, per-rule logging flags folded in order, disruptive or not, parts); Audit.tla defines the expected record / listed rules / callback multiset as functions and TLC enumerates the whole table; each case runs on the real library with a plugin audit writer and an error callback. Record integrity under concurrency is checked by parsing the serial log written by G goroutines with adversarial bytes.",
    note="Trusts TLC and the capturing writer. RelevantOnly without a pattern is left open. The concurrency part samples schedules (Go scheduler), it does not enumerate them. Quick replays a third of the table (chosen by VERIF_SEED), thorough all of it."),
+ "C18": dict(design="4/C18", engine="tlc-mw", technique="TLC enumeration of the Mw.tla case table (rule placement x body access / limit actions x request size vs limit x announced/chunked length x handler scripts; invariants BlockedNeverReachesHandler, BlockedResponseLeaksNothing, PassThroughIsIdentity) replayed against a real net/http server wrapped by the middleware",
+   text="What the wrapped handler and the client may observe is a TLA+ function of the case (Mw.tla); TLC enumerates all cases and checks the three C18 statements on it; each case runs against a real httptest server wrapped by http.WrapHandler built from /repo with a scripted handler (reads, WriteHeader, chunked writes, ReadFrom, Flush, 204/304/201/404/500) and the handler-invoked flag, bytes read by the handler, client status, pass-through header and client body bytes are compared.",
+   note="Trusts TLC, net/http/httptest and the scripted handler. Only deny is asserted for blocked statuses; a handler that never starts a response is left open; 1xx informational responses are not generated."),
 }
 
 not_built_reason = "check under construction in this session (see DESIGN.md section 4); not claimed until its machinery is committed"
@@ -59,6 +62,7 @@ manifest = {
    {"name":"tlc-pool","path":"spec/Pool.tla","serves_properties":["C05"],"kind_free_text":"TLA+ model of transaction recycling"},
    {"name":"tlc-fsfault","path":"spec/FsFault.tla","serves_properties":["C20"],"kind_free_text":"TLA+ model of the file-system life of a transaction with fault injection"},
    {"name":"tlc-audit","path":"spec/Audit.tla","serves_properties":["C19"],"kind_free_text":"TLA+ decision table of audit / error logging"},
+   {"name":"tlc-mw","path":"spec/Mw.tla","serves_properties":["C18"],"kind_free_text":"TLA+ case table of the net/http middleware"},
    {"name":"tlc-engine","path":"spec/Engine.tla, spec/Scen.tla, spec/Engine_MC.tla, spec/Engine_Trace.tla","serves_properties":["C01","C04","C08","C09","C12","C17"],"kind_free_text":"TLA+ specification of the rule interpreter; TLC enumerates scenarios + allowed outcomes (spec->code replay) and validates recorded executions (code->spec)"},
  ],
  "checks": [],
